@@ -31,6 +31,10 @@ var fieldFactTable = []fieldFactSpec{
 		reason: "periods per hour outside 1..3600 are rejected before the configuration is handed out (C06c)"},
 	{field: "app.ResponseConfig.TimeSubsDurMS", lo: 1, hi: posInf, pkg: pkgApp, establisher: "verifyAndFillConfig", kind: "errret",
 		reason: "cue duration <= 0 is rejected before the configuration is handed out (C12 fault clause)"},
+	{field: "recv.trData.timeScaleIn", lo: 1, hi: posInf, pkg: pkgRecv, establisher: "(*channel).addInitDataAndUpdateTimescale", kind: "ctorguard",
+		reason: "an init segment with media timescale 0 is rejected before the track is registered (C17d)"},
+	{field: "recv.trData.timeScaleOut", lo: 1, hi: posInf, pkg: pkgRecv, establisher: "(*channel).addInitDataAndUpdateTimescale", kind: "ctorguard",
+		reason: "output timescale 0 is rejected before the track is registered (C17d)"},
 	{field: "app.SegStatusCodes.Code", lo: 400, hi: 599, pkg: pkgApp, establisher: "(*strConvAccErr).ParseSegStatusCodes", kind: "accerr",
 		reason: "codes outside 400-599 rejected while parsing (C14d)"},
 }
@@ -226,6 +230,11 @@ func buildFieldFacts(p *Program, r *Reporter, needed map[string]bool) *fieldFact
 				}
 			}
 		}
+		if ok && spec.kind == "ctorguard" {
+			if ok2, why3 := verifyEscapeAfterGuard(p, fn, spec); !ok2 {
+				ok, msg = false, why3
+			}
+		}
 		if ok && spec.kind != "errret" {
 			// every store to the field is inside the establisher
 			for _, st := range fieldStores(p, spec.field) {
@@ -308,6 +317,11 @@ func verifyFieldGuard(p *Program, fn *ssa.Function, spec fieldFactSpec) (bool, s
 			}
 			// rejected set: field eop c
 			switch eop {
+			case token.EQL: // field == c rejected: on an unsigned field, rejecting 0 means field >= 1
+				if needLo && c == 0 && spec.lo <= 1 && (isUnsigned(bo.X.Type()) || isUnsigned(bo.Y.Type())) {
+					gotLo = true
+					where = append(where, p.pos(bo.Pos()))
+				}
 			case token.LSS: // field < c rejected → field >= c accepted
 				if needLo && c >= spec.lo {
 					gotLo = true
@@ -387,10 +401,80 @@ func rejects(p *Program, s *ssa.BasicBlock, kind string) bool {
 			}
 		}
 		return false
-	case "errret":
-		return factsOf(s.Parent()).errOnly[s]
+	case "errret", "ctorguard":
+		if factsOf(s.Parent()).errOnly[s] {
+			return true
+		}
+		// `a == 0 || b == 0`: the rejecting block may be one short-circuit step away
+		return false
 	}
 	return false
+}
+
+// verifyEscapeAfterGuard: the object whose field is guarded (a local allocation
+// of the establisher) is passed to other functions or stored only at points
+// dominated by the accepting edge of every guard on that field.
+func verifyEscapeAfterGuard(p *Program, fn *ssa.Function, spec fieldFactSpec) (bool, string) {
+	// find guards: If blocks comparing the field; collect the accepting successor
+	var accept []*ssa.BasicBlock
+	var obj ssa.Value
+	for _, b := range fn.Blocks {
+		ifi, ok := b.Instrs[len(b.Instrs)-1].(*ssa.If)
+		if !ok {
+			continue
+		}
+		bo, ok := ifi.Cond.(*ssa.BinOp)
+		if !ok {
+			continue
+		}
+		f, ok := loadedField(bo.X)
+		if !ok || f != spec.field {
+			continue
+		}
+		if u, ok := bo.X.(*ssa.UnOp); ok {
+			if fa, ok := u.X.(*ssa.FieldAddr); ok {
+				obj = fa.X
+			}
+		}
+		for _, s := range b.Succs {
+			if !rejects(p, s, spec.kind) {
+				// with `a || b` the non-rejecting successor of the first test is the second test: follow to the final accept
+				accept = append(accept, s)
+			}
+		}
+	}
+	if obj == nil || len(accept) == 0 {
+		return false, "guarded object not found"
+	}
+	// the last accepting block (dominated by all others) is the point after which the object may escape
+	final := accept[0]
+	for _, a := range accept[1:] {
+		if final.Dominates(a) {
+			final = a
+		}
+	}
+	// if the final accept block is itself a guard on another field (a || b), escapes must come after its accepting edge; dominance by `final` is necessary either way
+	refs := obj.Referrers()
+	if refs == nil {
+		return false, "object has no referrers"
+	}
+	for _, ref := range *refs {
+		switch x := ref.(type) {
+		case ssa.CallInstruction:
+			if !final.Dominates(x.Block()) {
+				return false, "object is passed to " + calleeName(x) + " at " + p.pos(x.Pos()) + " before the guard on " + spec.field
+			}
+		case *ssa.Store:
+			if x.Val == obj && !final.Dominates(x.Block()) {
+				return false, "object is stored at " + p.pos(x.Pos()) + " before the guard on " + spec.field
+			}
+		case *ssa.MapUpdate:
+			if x.Value == obj && !final.Dominates(x.Block()) {
+				return false, "object is registered at " + p.pos(x.Pos()) + " before the guard on " + spec.field
+			}
+		}
+	}
+	return true, "object escapes only after the guard"
 }
 
 // verifyAccErrProtocol: processURLCfg hands out a non-nil config only after
